@@ -59,3 +59,14 @@ package basestreamleecher
 //@   requires cbset(d)
 //@   modifies d.Terminated, ongoing
 //@   ensures  d.Terminated && !ongoing
+//@
+//@ // loop: the goroutine that calls Routine on every tick. Peers, the Terminated flag and the application's session state
+//@ // are changed by other goroutines between ticks (interference); what the loop itself guarantees is that every tick
+//@ // runs Routine with its precondition, so each tick starts at most one session, only with a registered peer and
+//@ // never after termination (Routine's contract).
+//@ func (*BaseLeecher).loop
+//@   requires cbset(d) && d.recheckInterval > 0
+//@   interference d.Terminated, d.Peers[*], ongoing, speer, nstart
+//@   modifies d.Terminated, d.Peers[*], ongoing, speer, nstart
+//@   loop 1 modifies d.Terminated, d.Peers[*], ongoing, speer, nstart
+//@   loop 1 invariant cbset(d)
